@@ -115,7 +115,7 @@ pub fn eval_case(c: &Case, allowed: &features::Allowed, fd: i32) -> Outcome {
                     continue;
                 }
                 Caught::Ok(Err(e)) => {
-                    let sh = shape.clone().unwrap_or_else(|| generic_shape(&c.ty));
+                    let sh = shape.clone().unwrap_or_else(|| c.ty.tag());
                     set(
                         &mut verdict,
                         format!("C09:serialize-error:{sh}"),
@@ -207,7 +207,7 @@ pub fn eval_case(c: &Case, allowed: &features::Allowed, fd: i32) -> Outcome {
 fn roundtrip_sig(shape: &Option<String>, enc: rxcdr::Enc, ty: &Ty) -> String {
     match shape {
         Some(f) => format!("C09:roundtrip:{f}"),
-        None => format!("C09:roundtrip:{}:{}", enc.vname(), generic_shape(ty)),
+        None => format!("C09:roundtrip:{}:{}", enc.vname(), ty.tag()),
     }
 }
 
